@@ -61,8 +61,15 @@ def path_walk(world, gen_):
 
 
 def run_shard(acc, prop, tier, seed, shard, nshards, **kw):
+    def walk_then_exotic(world, gen_):
+        for c in gen_.walk_paths():
+            yield c
+        # last: one-hop routes on a pair whose native denom is spelled like its own cw20 (quote vs delivery)
+        from .. import exotic
+        exotic.probe(world, gen_, acc, "C13")
+
     _w.shard(acc, PROP, tier, seed, shard, nshards, factory, WEIGHTS, (12, (140, 220)), (300, (140, 300)), CORR,
-             post_hook=path_walk, post_every=(2, 1))
+             post_hook=walk_then_exotic, post_every=(2, 1))
 
 
 def floors(acc, tier):
@@ -72,6 +79,7 @@ def floors(acc, tier):
         _w.need(acc, msgs, "routes_ok_%dhop" % h, 40)
     _w.need(acc, msgs, "routes_ok_revisiting_final_asset", 5)
     _w.need(acc, msgs, "worlds_with_exhaustive_walk", 48)
+    _w.need(acc, msgs, "exotic_swaps_ok", 100)
     for bm in ("empty", "dangling", "merge", "side_branch", "repeat_hop"):
         if not any(("|" + bm + "|") in k for k in acc.classes):
             msgs.append("bad route shape %s never attempted" % bm)
